@@ -1197,6 +1197,8 @@ class Interp:
             k = self.ev(t.slice, env)
             if isinstance(o, SymDict):
                 self.sd_set(o, k, v)
+            elif isinstance(o, Obj) and ('setitem', o.cls) in self.hooks:
+                self.hooks[('setitem', o.cls)](self, o, k, v)
             elif isinstance(o, dict):
                 for kk in list(o):
                     if self.ctx.branch(eq(k, kk), 'dictstore'):
@@ -1413,7 +1415,7 @@ class Interp:
         mode = ctx.choice(2, f"loop{lid}")      # 0: arbitrary iteration, 1: after the loop
         names = self.assigned_names(st.body) + self.assigned_names([ast.Expr(st.target)] if False else [])
         is_range = isinstance(it, tuple) and it and it[0] == 'range'
-        indexed = self.hooks.get(('indexed', type(it).__name__))
+        indexed = self.hooks.get(('indexed', it[0] if isinstance(it, tuple) and it and isinstance(it[0], str) and it[0] in TAGS else type(it).__name__))
         if indexed is not None and not is_range:
             # an indexable symbolic sequence: iterate as range(0, n) with element elem_at(idx)
             n_, elem_at = indexed(self, it)
@@ -1422,6 +1424,7 @@ class Interp:
             is_range = True
         if is_range:
             env['$idx'] = to_z3(it[1])
+            ctx.events.append(Event('loop-range', lid=lid, lo=it[1], hi=it[2], loops=list(ctx.loop_stack)))
         if spec and spec.get('init'):
             for nm, g in spec['init'](self, env):
                 ctx.oblige(f"{lid[0]}::loop{lid[1]}::inv-init::{nm}", g, kind='inv-init')
@@ -1457,6 +1460,7 @@ class Interp:
         # arbitrary iteration
         ctx.loop_stack.append(lid)
         ev_mark = len(ctx.events)
+        broke = []
 
         def body_cb(x):
             if '$seq' in env and indexed is not None:
@@ -1472,6 +1476,12 @@ class Interp:
                 how = 'break'
                 if not (spec and spec.get('allow_break')):
                     raise Unsupported(f"undeclared break in cut-point loop {lid}")
+                # a declared break leaves the loop: execution continues AFTER the loop from the state at the break
+                if spec.get('body_post'):
+                    spec['body_post'](self, env, pre_env, x, ctx.events[ev_mark:], how)
+                ctx.events.append(Event('iter-end', lid=lid, how=how, loops=list(ctx.loop_stack)))
+                broke.append(True)
+                return
             if is_range:
                 env['$idx'] = env['$idx'] + 1
             if spec and spec.get('inv'):
@@ -1484,6 +1494,9 @@ class Interp:
                 return      # generator frame: control returns into the generator body
             raise EndPath(f"end of arbitrary iteration of {lid}")
         self.arbitrary_elements(it, st, env, body_cb)
+        if broke:
+            ctx.loop_stack.pop()
+            return
         raise EndPath(f"end of arbitrary iteration of {lid}")
 
     def s_While(self, st, env):
@@ -1568,6 +1581,9 @@ def explore(run, max_paths=20000, prune=True, feas_timeout=1500):
             raise
         except Exception as e:      # a sidecar callback that no longer fits the code: undecided, never a crash or a violation
             import traceback
+            import os as _os
+            if _os.environ.get('VERIF_VERBOSE'):
+                traceback.print_exc()
             oc = ('unsupported', f"sidecar/engine error {type(e).__name__}: {e} @ {traceback.format_exc().strip().splitlines()[-3][:120]}")
         stack.extend(ctx.new)
         for k, o in enumerate(ctx.obl):
